@@ -92,6 +92,27 @@ def dependencies(prop, info, R):
                 k = f['key']
                 if k.startswith(tname + ' for ') and k.endswith('::' + meth) and (not only or only in k):
                     deps.add(k)
+    # everything those functions call (by name, over-approximated, transitively): a callee's contract is assumed at the
+    # call site, so if the callee had to be left unverified the caller's verdict is void as well
+    by_name = {}
+    for f in info.functions:
+        by_name.setdefault(f['key'].rsplit('::', 1)[-1], []).append(f)
+    calls = {f['key']: f.get('calls', []) for f in info.functions}
+    work = list(deps)
+    while work:
+        k = work.pop()
+        my_type = k.rsplit('::', 1)[0].split(' for ')[-1]
+        for name in calls.get(k, []):
+            same_type_only = name.startswith('Self::')
+            name = name[len('Self::'):] if same_type_only else name
+            for g in by_name.get(name, []):
+                if same_type_only and g['key'].rsplit('::', 1)[0].split(' for ')[-1] != my_type:
+                    continue
+                if name == 'map_keycode' and 'AnyLayout' in g['key'] and PROPS[prop].get('denotations') not in ('wrappers', 'all'):
+                    continue   # the wrappers are only called by code that is generic in the layout
+                if g['key'] not in deps:
+                    deps.add(g['key'])
+                    work.append(g['key'])
     kind = PROPS[prop].get('denotations', '')
     for f in info.functions:
         k = f['key']
